@@ -106,7 +106,27 @@ def c17_swapinfo(line):
     return None
 
 
+def c14_drewards(line):
+    """calculate_decimal_rewards(global, user, balance) = (global - user) x balance, exactly (atomics);
+    it fails only when user > global or a Decimal (u128 atomics) overflows"""
+    args, res = line.split(' => ')
+    g, u, b = [int(x) for x in args.split(' ')]
+    if g < u:
+        return None if res == 'err' else 'calculate_decimal_rewards returned %s although the holder index %d is above the global index %d' % (res, u, g)
+    want = (g - u) * b
+    if res == 'err':
+        if b * D < (1 << 127) and want < (1 << 127):
+            return 'calculate_decimal_rewards failed on (global %d, user %d, balance %d): every intermediate value fits' % (g, u, b)
+        return None
+    if int(res) != want:
+        return 'calculate_decimal_rewards(global %d, user %d, balance %d) = %s, (global - user) x balance = %d' % (g, u, b, res, want)
+    return None
+
+
 KERNEL_MONITORS = {
+    ('C14', 'drewards'): c14_drewards,
+    ('C15', 'drewards'): c14_drewards,
+    ('C19', 'drewards'): c14_drewards,
     ('C17', 'swapinfo'): c17_swapinfo,
     ('C12', 'deleg'): c12_deleg,
     ('C12', 'undeleg'): c12_undeleg,
@@ -858,7 +878,8 @@ HISTORY_MONITORS = {
     'C09': [M2.guarded(M2.mon_c09), M2.guarded(M2.mon_c09_epoch), M2.guarded(M2.mon_c09_probes), M2.guarded(M2.mon_c09_withdraw)],
     'C13': [M2.guarded(M2.mon_c13)],
     'C14': [M2.guarded(M2.mon_c14)],
-    'C15': [M2.guarded(M2.mon_c15)],
+    # accrual is proportional to the bSei balance only if the reward contract's stake mirrors it (C16)
+    'C15': [M2.guarded(M2.mon_c15), M2.guarded(M2.mon_c16)],
     'C16': [M2.guarded(M2.mon_c16)],
     'C19': [M2.guarded(M2.mon_c19), M2.guarded(mon_c17_keeper)],
     'C18': [mon_c18],
